@@ -150,6 +150,22 @@ type Rec struct {
 	Rdata hx.B   `json:"rdata"`
 	Ln    int    `json:"ln,omitempty"`  // spec only: the top-level line the record comes from
 	Src   string `json:"src,omitempty"` // spec only: where the TTL came from
+	Via   string `json:"via,omitempty"` // spec only: written as an RR line ("rr") or expanded from a $GENERATE ("generate")
+}
+
+// IsMnemonic: does this text spell a type or class mnemonic?  The pinned lexer treats such a
+// token specially in places where the grammar wants a name or a string; the harness uses
+// this only to give those refusals their own finding key and to keep the random generators
+// away from them (dedicated cases exercise them).
+func IsMnemonic(s string) bool {
+	u := strings.ToUpper(s)
+	if _, ok := dns.StringToType[u]; ok {
+		return true
+	}
+	if _, ok := dns.StringToClass[u]; ok {
+		return true
+	}
+	return strings.HasPrefix(u, "TYPE") || strings.HasPrefix(u, "CLASS")
 }
 
 // Rec5 is Rec without the spec's bookkeeping, for events.
@@ -190,7 +206,11 @@ func SameRec(a, b Rec) string { // "" or the first field that differs
 // ---------------------------------------------------------------- rendering
 
 const (
-	TypeA = 1; TypeNS = 2; TypeCNAME = 5; TypeMX = 15; TypeTXT = 16
+	TypeA     = 1
+	TypeNS    = 2
+	TypeCNAME = 5
+	TypeMX    = 15
+	TypeTXT   = 16
 )
 
 var typeName = map[int]string{1: "A", 2: "NS", 5: "CNAME", 15: "MX", 16: "TXT"}
@@ -326,7 +346,7 @@ func plainString(b hx.B) bool {
 }
 
 func (s *Style) StringText(b hx.B) string {
-	if plainString(b) && s.coin(3) {
+	if plainString(b) && !IsMnemonic(b.String()) && s.coin(3) {
 		return b.String()
 	}
 	var sb strings.Builder
@@ -514,7 +534,7 @@ func (s *Style) RenderFile(lines []Line) Spelling {
 	if s.coin(5) {
 		add(Line{K: "blank"}, -1)
 	}
-	if s.coin(4) && len(sp.Texts) > 0 {
+	if s.coin(4) && len(sp.Texts) > 0 && sp.Lines[len(sp.Lines)-1].K != "blank" {
 		// the last entry may end at the end of the file instead of at a line break
 		last := sp.Texts[len(sp.Texts)-1]
 		sp.Text = sp.Text[:len(sp.Text)-1]
@@ -529,12 +549,18 @@ func (s *Style) RenderFile(lines []Line) Spelling {
 // CountFS wraps an fs.FS and reports every Open.
 type CountFS struct {
 	FS     fs.FS
-	OnOpen func(name string)
+	OnOpen func(name string) bool // false: refuse
 }
+
+// MaxOpens: after this many Opens the wrapper refuses (so that a parser without a depth limit
+// ends with an error the harness can report, instead of exhausting the stack of the process).
+const MaxOpens = 200
 
 func (c CountFS) Open(name string) (fs.File, error) {
 	if c.OnOpen != nil {
-		c.OnOpen(name)
+		if !c.OnOpen(name) {
+			return nil, fmt.Errorf("include FS wrapper: more than %d Opens: %w", MaxOpens, fs.ErrPermission)
+		}
 	}
 	return c.FS.Open(name)
 }
@@ -639,8 +665,7 @@ func Unwire(w []byte) (Rec, bool) {
 	return r, true
 }
 
-func RecOf(rr dns.RR) Rec {
-	buf := make([]byte, 70000)
+func RecOf(rr dns.RR, buf []byte) Rec {
 	off, err := dns.PackRR(rr, buf, 0, nil, false)
 	if err != nil {
 		return Rec{Owner: []hx.B{hx.FromString("?unpackable: " + rr.String())}, Type: -1}
@@ -678,11 +703,15 @@ func Run(text []byte, c RunCfg) (o Observed) {
 	}
 	zp.SetIncludeAllowed(c.IncAllowed)
 	if c.FS != nil {
-		zp.SetIncludeFS(CountFS{c.FS, func(n string) {
+		zp.SetIncludeFS(CountFS{c.FS, func(n string) bool {
 			o.Opens = append(o.Opens, n)
-			o.Events = append(o.Events, EvOpen{"open", hx.FromString(n)})
+			if len(o.Opens) <= 80 {
+				o.Events = append(o.Events, EvOpen{"open", hx.FromString(n)})
+			}
+			return len(o.Opens) <= MaxOpens
 		}})
 	}
+	buf := make([]byte, 70000)
 	max := c.MaxRecs
 	if max == 0 {
 		max = 1 << 30
@@ -694,7 +723,7 @@ func Run(text []byte, c RunCfg) (o Observed) {
 		}
 		o.NRecs++
 		if len(o.Recs) < max {
-			o.Recs = append(o.Recs, RecOf(rr))
+			o.Recs = append(o.Recs, RecOf(rr, buf))
 			o.At = append(o.At, rd.Pos)
 		}
 		if o.NRecs <= 40 {
